@@ -298,10 +298,12 @@ class DULServiceProvider(threading.Thread):
         if self.dul_socket is None:
             return False
 
-        # wait for remote connection to close
+        # wait for remote connection to close, but do not block on it: ARTIM timer limits the wait
         try:
-            while self.dul_socket.recv(1) != b'':
-                continue
+            if not select.select([self.dul_socket], [], [], 0.05)[0]:
+                return False
+            if self.dul_socket.recv(self.max_pdu_length) != b'':
+                return False  # association no longer exists, whatever has been received is ignored
         except socket.error:
             return False
 
